@@ -153,3 +153,63 @@ extern "C" void h_verbose_copy_hfe(void)
   vf_observe(quiet.size());
   if (vfio::nev > ev_quiet + 1) vf_witness("verbose opcode trace printed");
 }
+
+// ---------------------------------------------------------------- C18 / C07: the --verbose header dump
+// operator<<(ostream&, picfileformatheader) on arbitrary header bytes: the 8-byte signature field is not NUL-terminated,
+// so nothing may be streamed as a C string from inside the header object.
+extern "C" void h_hfe_header_dump(void)
+{
+  std::vector<byte> h(512);
+  for (unsigned i = 0; i < 26; ++i) h[i] = vf_nondet_u8();
+  const picfileformatheader p = decode_header(h);
+  const unsigned before = vfio::nev;
+  std::cerr << p;
+  const char *base = reinterpret_cast<const char *>(&p);
+  bool cstring_from_header = false, sig_written = false;
+  vf_assert(vfio::nev <= 64, "harness: the dump is at most 64 stream events");
+  for (unsigned i = 0; i < 64; ++i)
+    if (i >= before && i < vfio::nev)
+      {
+        const char *q = static_cast<const char *>(vfio::ev_ptr[i]);
+        bool inside = false;                    // equality tests only: relational comparison of pointers to different objects is not defined
+        for (unsigned k = 0; k < sizeof p; ++k) if (q == base + k) inside = true;
+        if (vfio::ev_kind[i] == vfio::K_TEXT && vfio::ev_val[i] == 0 && inside) cstring_from_header = true;
+        if (vfio::ev_kind[i] == vfio::K_WRITE && q == reinterpret_cast<const char *>(p.HEADERSIGNATURE) && vfio::ev_val[i] == 8) sig_written = true;
+        vf_assert(vfio::ev_stream[i] == 2, "the header dump goes to the stream it was given (standard error)");
+      }
+  vf_assert(!cstring_from_header, "no field of the header is streamed as a NUL-terminated string (the signature has no terminator)");
+  vf_assert(sig_written, "the signature is written as exactly its 8 bytes");
+  vf_observe(vfio::nev - before);
+  if (h[0] != 0 && h[7] != 0 && h[8] != 0) vf_witness("signature without any zero byte, followed by a non-zero byte");
+}
+
+// ---------------------------------------------------------------- C07: degenerate HFE headers
+namespace {
+struct HeaderOnlyFile : public DFS::FileAccess
+{
+  byte hdr[26];
+  std::vector<byte> read(unsigned long offset, unsigned long count) override
+  {
+    std::vector<byte> v(512);
+    (void)count;
+    if (offset == 0) for (unsigned i = 0; i < 26; ++i) v[i] = hdr[i];
+    return v;
+  }
+};
+}
+extern "C" void h_hfe_ctor_degenerate(void)
+{
+  HeaderOnlyFile *f = new HeaderOnlyFile;
+  for (unsigned i = 0; i < 26; ++i) f->hdr[i] = vf_nondet_u8();
+  const char sig[9] = "HXCPICFE";
+  for (unsigned i = 0; i < 8; ++i) f->hdr[i] = static_cast<byte>(sig[i]);
+  vf_assume(f->hdr[9] == 0 || f->hdr[10] == 0);            // no tracks, or no sides: nothing can be read from such an image
+  bool threw = false, other = false;
+  try { HfeFile img(std::string("x.hfe"), false, std::unique_ptr<DFS::FileAccess>(f)); }
+  catch (DFS::BaseException&) { threw = true; }
+  catch (std::exception&) { other = true; }
+  vf_assert(threw && !other, "an HFE header announcing no tracks or no sides is rejected with a dfs exception");
+  vf_observe(threw);
+  if (f->hdr[9] == 0 && f->hdr[10] == 2) vf_witness("no tracks, two sides");
+  if (f->hdr[9] != 0) vf_witness("tracks but no sides");
+}
